@@ -96,9 +96,14 @@ def build_jobs(ctx, rng):
         ch = pick_chunkings(rng, H, W, nchunk, not quick and H * W <= 30)
         if independent:
             for c in ch:
-                if rng.random() < 0.5:
+                u = rng.random()
+                if u < 0.4:
                     c["rows2"] = rng.choice(compositions(H))
                     c["cols2"] = rng.choice(compositions(W))
+                elif u < 0.8:
+                    # the same chunk sizes in another arrangement (equal .chunksize, different .chunks)
+                    c["rows2"] = rng.sample(c["rows"], len(c["rows"]))
+                    c["cols2"] = rng.sample(c["cols"], len(c["cols"]))
         j = {"func": func, "params": params, "H": H, "W": W, "vals": vals, "dtype": dtype, "radius": list(radius),
              "chunkings": ch, "kh": kh, "kw": kw, "passes": passes, "xs": None, "ys": None, "res": None}
         if rng.random() < 0.35:
